@@ -295,7 +295,8 @@ func mutate(b []byte, c Case) []byte {
 	return b
 }
 
-var honestUnregistered = []string{"origin.exampl", "origin.example.", "origin.examplf", "Origin.example", "origin.example\x00a", "x", "origin.example/", "second.example"}
+var honestUnregistered = []string{"origin.exampl", "origin.example.", "origin.examplf", "Origin.example", "origin.example\x00a", "x", "origin.example/", "second.example",
+	"origin.example\x07", "origin.example\xff", "origin.example\x7f", "origin.example ", "origin.\u200bexample", "*.example", "origin.example:443"}
 var craftedUnregistered = []string{"origin.exampl", "origin.example.", "", "other.example"}
 
 var shortEncLens = []int{0, 1, 16, 31, 32, 33, 47, 48, 49}
@@ -431,7 +432,7 @@ func main() {
 				}
 			}
 		}
-		for v := 0; v < 8; v++ {
+		for v := 0; v < len(honestUnregistered); v++ {
 			exp := "reject"
 			if v == 7 && is == 1 {
 				exp = "accept" // issuer 1 registered second.example as well
